@@ -71,7 +71,8 @@ def geoEdge (j : Json) : Except String Edge := do
   let id ← getStr j "id"
   let r ← (← getArr j "route").toList.mapM (fun p => geoPt p |>.mapError (fun e => s!"{e} (edge {id})"))
   pure { id := id, src := strD j "src", dst := strD j "dst", route := r, lifeline := boolD j "lifeline",
-         inSeq := boolD j "inSeq", labelH := intD j "labelH", labelW := intD j "labelW", line := intD j "line" }
+         inSeq := boolD j "inSeq", labelH := intD j "labelH", labelW := intD j "labelW", line := intD j "line",
+         srcPerim := strD j "srcPerim", dstPerim := strD j "dstPerim" }
 
 def geoOf (g : Json) : Except String (List Obj × List Edge) := do
   let os ← (← getArr g "objects").toList.mapM geoObj
